@@ -272,6 +272,12 @@ func (m *Machine) callSSA2(caller *frame, pos token.Pos, fn *ssa.Function, args 
 			m.loadEmbeds(fn.Pkg)
 		}
 	}
+	if fn.Pkg != nil && fn.Pkg.Pkg.Path() == "github.com/sirupsen/logrus" && fn.Synthetic != "package initializer" {
+		// Logging is not the subject of any property: every logrus function is an
+		// empty stub. Results are zero values, except that a pointer result (the
+		// *Logger / *Entry that calls are chained on) is a fresh zero object.
+		return m.loggingStub(fn)
+	}
 	if fn.Synthetic == "package initializer" && os.Getenv("VERIF_INITTIME") != "" {
 		t0 := time.Now()
 		defer func() {
@@ -374,6 +380,29 @@ func (m *Machine) runFrame(fr *frame) {
 			}
 		}
 	}
+}
+
+func (m *Machine) loggingStub(fn *ssa.Function) Value {
+	res := fn.Signature.Results()
+	one := func(t types.Type) Value {
+		if pt, ok := t.Underlying().(*types.Pointer); ok {
+			p := new(Value)
+			*p = m.zero(pt.Elem())
+			return p
+		}
+		return m.zero(t)
+	}
+	switch res.Len() {
+	case 0:
+		return nil
+	case 1:
+		return one(res.At(0).Type())
+	}
+	t := make(Tuple, res.Len())
+	for i := range t {
+		t[i] = one(res.At(i).Type())
+	}
+	return t
 }
 
 func (m *Machine) zeroResults(fn *ssa.Function) Value {
